@@ -915,6 +915,7 @@ def run(repo: Repo, ctx) -> None:
     _r9(repo, ctx)
     _r10(repo, ctx)
     root_schema_rule(repo, ctx, 'C09.R11')
+    _r12(repo, ctx)
 
 
 def _isa(repo: Repo, q: str) -> Set[str]:
@@ -1132,3 +1133,90 @@ def root_schema_rule(repo: Repo, ctx, rule: str) -> None:
     if n < 2:
         raise AnalysisError(f'{rule}: suppression of the root schema in '
                             f'compile_in_tx not found')
+
+
+
+def _r12(repo: Repo, ctx) -> None:
+    """C09.R12 what travels with the pickled compiler state, and that the
+    public savepoint commands always reach their worker.
+
+    (a) `__getstate__` / `__setstate__` of the connection state agree: every
+        slot is either shipped and restored from the shipped tuple at the
+        same position, or reset to a constant; a slot *derived* on arrival
+        (for instance the id counter restarted from the current
+        transaction's id) lets the receiving worker hand out ids that are
+        still alive.
+    (b) `declare_savepoint`, `rollback_to_savepoint`, `release_savepoint`
+        (and the migration forms) call their `_x(name)` worker on every
+        path that does not raise: an early return answers the command
+        without touching the savepoint stack."""
+    ctx.floor('C09.R12', 7)
+    mod = 'edb.server.compiler.dbstate'
+    cs = repo.cls(f'{mod}.CompilerConnectionState')
+    gs, ss = cs.methods.get('__getstate__'), cs.methods.get('__setstate__')
+    if gs is None or ss is None:
+        raise AnalysisError('C09.R12: __getstate__/__setstate__ of '
+                            'CompilerConnectionState not found')
+    ctx.saw(gs)
+    ctx.saw(ss)
+    slots = []
+    v = cs.assign_fields.get('__slots__')
+    if isinstance(v, (ast.Tuple, ast.List)):
+        slots = [e.value for e in v.elts if isinstance(e, ast.Constant)]
+    rets = [r for r in ast.walk(gs.node) if isinstance(r, ast.Return)]
+    shipped = None
+    if len(rets) == 1 and isinstance(rets[0].value, ast.Tuple):
+        shipped = [norm(e) for e in rets[0].value.elts]
+    if shipped is None or not slots:
+        raise AnalysisError('C09.R12: __getstate__ does not return a tuple '
+                            'of attributes / __slots__ not found')
+    sp = ss.params()[1] if len(ss.params()) > 1 else 'state'
+    restored = None
+    others = {}
+    for a in ast.walk(ss.node):
+        if isinstance(a, ast.Assign):
+            if norm(a.value) == sp and isinstance(a.targets[0], ast.Tuple):
+                restored = [norm(e) for e in a.targets[0].elts]
+            else:
+                for t in a.targets:
+                    if isinstance(t, ast.Attribute) and norm(
+                            t.value) == 'self':
+                        others[t.attr] = a.value
+    ctx.ob('C09.R12', 'CompilerConnectionState:shipped=restored',
+           restored == shipped,
+           f'__getstate__ ships {shipped} but __setstate__ unpacks into '
+           f'{restored}: a field lands in the wrong slot or is dropped on '
+           f'the way to the next worker', ss.loc, sample=shipped)
+    for sl in slots:
+        if f'self.{sl}' in (shipped or []):
+            ok, how = True, 'shipped'
+        elif sl in others:
+            ok = isinstance(others[sl], ast.Constant)
+            how = f'reset to {norm(others[sl])}'
+        else:
+            ok, how = False, 'neither shipped nor reset'
+        ctx.ob('C09.R12', f'CompilerConnectionState:slot={sl}', ok,
+               f'slot {sl} is {how} when the state moves to another '
+               f'worker: a value derived on arrival (or left unset) is not '
+               f'the one the transaction was using -- with the id counter '
+               f'the next savepoint reuses the id of one that is still '
+               f'alive', ss.loc, sample=how)
+    tx = repo.cls(f'{mod}.Transaction')
+    for name, worker in (('declare_savepoint', '_declare_savepoint'),
+                         ('rollback_to_savepoint', '_rollback_to_savepoint'),
+                         ('release_savepoint', '_release_savepoint'),
+                         ('abort_migration', '_rollback_to_savepoint'),
+                         ('commit_migration', '_release_savepoint'),
+                         ('start_migration', '_declare_savepoint')):
+        f = repo.find_method(tx.qualname, name)
+        if f is None:
+            raise AnalysisError(f'C09.R12: Transaction.{name} not found')
+        g = CFG(f.node)
+        calls = [n.id for n in g.nodes if any(
+            norm(c.func) == f'self.{worker}' for c in g.node_calls(n))]
+        ok = bool(calls) and g.always_before(g.exit, calls)
+        ctx.ob('C09.R12', f'Transaction.{name}:reaches-worker', ok,
+               f'{name} can return without calling {worker}: the command '
+               f'is answered (and sent to the backend) while the compiler\'s '
+               f'savepoint stack keeps its old shape', f.loc,
+               sample=f'every normal exit passes self.{worker}(..)')
